@@ -41,14 +41,18 @@ def gen_case(rng):
     x = gens.signal(rng, kind, n)
     io = gens.imf_opts(rng)
     xo = gens.ext_opts(rng)
-    return {'kind': 'sift', 'family': kind, 'x': x, 'imf_opts': io, 'envelope_opts': eo, 'extrema_opts': xo}
+    xp, _, tag = gens.present(rng, x, p_plain=.8)
+    if tag == 'strided':
+        xp = np.asarray(x)
+    return {'kind': 'sift', 'family': kind, 'x': xp, 'imf_opts': io, 'envelope_opts': eo, 'extrema_opts': xo, 'presentation': tag}
 
 
 def neighbours(rng, case, k=4):
     out = []
     for _ in range(k):
         c = dict(case)
-        x = case['x'].copy()
+        x = np.asarray(case['x'], dtype=float).copy()
+        c.pop('presentation', None)
         r = rng.random()
         if r < .5:
             x = x + rng.standard_normal(len(x)) * np.abs(x).max() * float(gens.pick(rng, [1e-3, 1e-2, .1]))
@@ -70,13 +74,17 @@ def check_case(ctx, case):
     """Runs one sift under the probe and judges it. Returns the probe's path string (or None)."""
     from emd import sift as S
     from emd.support import EMDSiftCovergeError
-    x = np.asarray(case['x'], dtype=float)
+    xin = np.asarray(case['x'])
+    if case.get('presentation') == 'strided':
+        xin, _ = gens.relayout(None, xin, 'strided')
+    x = np.asarray(xin, dtype=float)
     io, eo, xo = case['imf_opts'], case['envelope_opts'], case['extrema_opts']
     dig = digest(x, io, eo, xo)
+    ctx.count('presentation:' + case.get('presentation', 'plain'))
     probe = SiftProbe(S)
     try:
         with probe, watchdog(30):
-            imf = S.sift(x.copy(), imf_opts=dict(io), envelope_opts=dict(eo), extrema_opts=dict(xo))
+            imf = S.sift(xin if case.get('presentation') == 'strided' else xin.copy(), imf_opts=dict(io), envelope_opts=dict(eo), extrema_opts=dict(xo))
     except WatchdogTimeout:
         ctx.count('watchdog')
         ctx.case(dig, False)
